@@ -372,6 +372,7 @@ namespace
             std::this_thread::sleep_for(std::chrono::microseconds{100});
         }
         std::atomic<std::int64_t> refused{0}, failed{0};
+        std::atomic<bool>         give_up{false};     // set once the verdict (timeout) is in: retry loops end
         std::atomic<std::size_t>  max_pending{0};
         std::vector<std::thread>  threads;
         const std::size_t         total = static_cast<std::size_t>(producers) * static_cast<std::size_t>(messages);
@@ -393,8 +394,9 @@ namespace
                             {
                                 ++refused;
                                 std::this_thread::yield();
-                                if (std::chrono::steady_clock::now() - s0 > std::chrono::seconds{15}) { ++failed; break; }
+                                if (give_up.load() || std::chrono::steady_clock::now() - s0 > std::chrono::seconds{15}) { ++failed; break; }
                             }
+                            if (give_up.load()) { return; }
                         }
                     }
                 });
@@ -420,7 +422,7 @@ namespace
             if (std::chrono::steady_clock::now() - t1 > std::chrono::seconds{15}) { timeout = true; break; }
             std::this_thread::sleep_for(std::chrono::microseconds{50});
         }
-        if (timeout) { view.request_stop(); }      // releases parked senders through the graph stop
+        if (timeout) { give_up.store(true); view.request_stop(); }      // releases parked senders through the graph stop
         for (auto &t : threads) { t.join(); }
         view.request_stop();
         runner.join();
